@@ -110,6 +110,10 @@ class Ctx:
             env["JAVA_TOOL_OPTIONS"] = "-Xmx%s -Xss256m" % heap
         else:
             env["JAVA_TOOL_OPTIONS"] = "-Xss512m"
+        # TLC unpacks its standard modules into java.io.tmpdir: keep that inside the scratch.
+        jtmp = os.path.join(d, "jtmp")
+        os.makedirs(jtmp, exist_ok=True)
+        env["JAVA_TOOL_OPTIONS"] += " -Djava.io.tmpdir=" + jtmp
         t = time.time()
         with open(out, "w") as fh:
             p = subprocess.run(cmd, cwd=d, stdout=fh, stderr=subprocess.STDOUT, env=env)
